@@ -65,8 +65,14 @@ def run_plan(plan, tag="x", keep_output=False, watchdog=WATCHDOG_S):
         os.unlink(of)
     env = {"SIM_SEED": str(plan["seed"]), "SIM_PLAN": pf, "SIM_OUT": of, "PATH": os.environ.get("PATH", ""), "RUST_BACKTRACE": "0"}
     t = time.time()
+
+    def limits():
+        import resource
+        # a runaway allocation in one simulated process must not take the sandbox down: it aborts that process instead
+        resource.setrlimit(resource.RLIMIT_AS, (6 << 30, 6 << 30))
+
     try:
-        p = subprocess.run([BIN] + sim_args(plan), env=env, stdout=subprocess.PIPE, stderr=subprocess.PIPE, timeout=watchdog, cwd=d)
+        p = subprocess.run([BIN] + sim_args(plan), env=env, stdout=subprocess.PIPE, stderr=subprocess.PIPE, timeout=watchdog, cwd=d, preexec_fn=limits)
         rc, out, err, hung = p.returncode, p.stdout, p.stderr, False
     except subprocess.TimeoutExpired as e:
         rc, out, err, hung = None, e.stdout or b"", e.stderr or b"", True
@@ -156,6 +162,9 @@ def evaluate(prop, plan, i=0, tag=None):
     out = run_plan(plan, tag=tag)
     viols = prop.oracle(plan, out)
     r = out["result"] or {}
+    if hasattr(prop, "shape_key"):
+        r = dict(r)
+        r["shape_hash"] = prop.shape_key(plan, out)
     summ = {
         "i": i,
         "violations": [v.to_json() for v in viols],
